@@ -18,6 +18,7 @@
 #include <sched.h>
 #include <sys/syscall.h>
 #include <stdatomic.h>
+#include <errno.h>
 
 typedef void (*dispatch_verif_cb_t)(const volatile void *addr, unsigned size, int kind, int order,
 		unsigned long long a, unsigned long long b, int ok, const char *file, int line);
@@ -56,9 +57,10 @@ static void dv_cb(const volatile void *addr, unsigned size, int kind, int order,
 		int ok, const char *file, int line) {
 	(void)file;
 	if (!atomic_load_explicit(&dv_enabled, memory_order_relaxed)) return;
+	int saved_errno = errno;    // the library tests errno right after some notes: the recorder must not disturb it
 	dv_thr_t *t = dv_me();
 	uintptr_t p = (uintptr_t)addr; int n = atomic_load_explicit(&dv_nranges, memory_order_acquire);
-	for (int i = 0; i < n; i++) if (p >= dv_ranges[i].lo && p < dv_ranges[i].hi) {
+	for (int i = n - 1; i >= 0; i--) if (p >= dv_ranges[i].lo && p < dv_ranges[i].hi) {   // newest range first (addresses get reused)
 		dv_push(t, kind, order, dv_ranges[i].obj, (long)(p - dv_ranges[i].lo), (int)size, a, b, ok, line);
 		break;
 	}
@@ -66,6 +68,7 @@ static void dv_cb(const volatile void *addr, unsigned size, int kind, int order,
 		uint64_t r = dv_rand(t);
 		if ((int)(r % 1000) < dv_permille) { if ((r >> 20) & 3) sched_yield(); else usleep((useconds_t)((r >> 24) % 60)); }
 	}
+	errno = saved_errno;
 }
 static void dv_install(uint64_t seed, int permille) {
 	dv_seed = seed; dv_permille = permille; atomic_store(&dv_enabled, 1); _dispatch_verif_cb = dv_cb;
